@@ -213,6 +213,7 @@ class TCPConn:
         self.server = None  # peer handler object with on_data(conn, data), on_close(conn)
         self.open = True
         self.client_closed = False
+        self.server_closed = False
         self._c2s_t = 0.0  # last scheduled delivery time (keeps stream order)
         self._s2c_t = 0.0
         self.link_c2s = f"tcp{cid}:c>s"
@@ -223,7 +224,9 @@ class TCPConn:
     def _client_write(self, data: bytes):
         net = self.net
         net.log("tcp_out", self.cid, data.hex())
-        if not self.open:
+        if not self.open and not self.client_closed:
+            return
+        if self.client_closed:
             return
         d = net.faults.decide(self.link_c2s, 0)
         t = max(net.loop.time() + d["lat"], self._c2s_t)
@@ -231,7 +234,8 @@ class TCPConn:
         net.loop.at(t, lambda: self._to_server(data), label="tcp_c2s")
 
     def _to_server(self, data):
-        if self.open and self.server is not None:
+        # data written before the client closed still reaches the server (FIN follows the data)
+        if (self.open or self.client_closed) and not self.server_closed and self.server is not None:
             self.server.on_data(self, data)
 
     def _client_closed(self):
@@ -267,6 +271,7 @@ class TCPConn:
         if not self.open:
             return
         self.open = False
+        self.server_closed = True
         t = max(self.net.loop.time() + lat, self._s2c_t)
         self.net.loop.at(t, lambda: self._lost(exc), sock=self, label="tcp_lost")
 
